@@ -530,6 +530,13 @@ theorem step_queued (s : State) (op : Op) (h : Queued s) : Queued (step s op).1 
         split
         · exact dropCheckout_queued h r
         · exact h
+  | cancelOff r =>
+    simp only [step]
+    cases hh : s.held r with
+    | some p =>
+      simp only []
+      exact abortTask_queued ((h.frame (QFrame.of_eq (s' := { s with held := upd s.held r none }) rfl rfl rfl)).frame (dropPooled_qframe none _ p)) _
+    | none => exact h
   | dialDone r o =>
     simp only [step]
     split
